@@ -555,6 +555,7 @@ type c14Gen struct {
 	pendingPub string // channel a SUBSCRIBE was just generated for
 	pendingHow int
 	dbs        int // numbered databases of this run (SELECT is generated when > 1)
+	inShape    bool
 }
 
 // word produces an argument payload carrying (some of) the run's features.
@@ -696,6 +697,26 @@ func (g *c14Gen) cmd() []B {
 	}
 	w := g.word
 	n := g.name
+	if !g.inShape && r.Bool(0.06) {
+		// shapes a standalone server refuses: the cluster path must refuse them alike
+		// (the empty array, a missing or surplus argument, an unknown command name)
+		g.inShape = true
+		a := g.cmd()
+		g.inShape = false
+		switch r.Intn(4) {
+		case 0:
+			return []B{}
+		case 1:
+			if len(a) > 1 {
+				return a[:len(a)-1]
+			}
+			return a
+		case 2:
+			return append(a, B(w()))
+		default:
+			return bs(n("nosuchcmd"), g.key("s"), w())
+		}
+	}
 	switch r.Intn(40) {
 	case 0, 1, 2:
 		return bs(n("set"), g.key("s"), w())
